@@ -77,6 +77,8 @@ static const std::string* g_depfile_override;    // when set: the bytes every co
 static bool g_mkdir_may_fail;          // directory creation may fail (permissions, a file in the way)
 static bool g_midrun_edit_done;        // at most one source is edited while a command runs, per history
 static bool g_dead;                    // the simulated process has died: nothing ninja does persists any more (C07)
+static bool g_long_output;            // commands that print, print more than ninja reads from a pipe in one go (4 KiB)
+static std::string out_block(const std::string& o0) { return "<<out " + o0 + ">>\n" + (g_long_output ? std::string(4200, 'x') + "\n" : std::string()) + "part two of " + o0 + "\n"; }
 static bool g_stat_may_fail, g_stat_failed, g_commands_started;   // fault injection for DiskInterface::Stat during the build
 static void persistence_event() { if (verif_vfs_event()) g_dead = true; }     // one event counter for DiskInterface and stdio/unistd mutations
 
@@ -350,7 +352,7 @@ struct SymRunner : public CommandRunner {
     std::string dep = e->GetUnescapedDepfile();
     if (!dep.empty()) { std::string t = e->outputs_[0]->path() + ":"; size_t nd = reads.size(); for (size_t z = 0; z < g_ref.size(); z++) if (g_ref[z].ordinal == ord) nd = g_ref[z].ndeclared;
       for (size_t q = 0; q < reads.size(); q++) t += ((r.flags & NONCANONICAL_DEPFILE) && q >= nd ? " ./" : " ") + reads[q]; t += "\n"; if (g_depfile_override) t = *g_depfile_override; g_tree->write_text(dep, t); }
-    if (opt.prints_output && !e->use_console() && verif_bool("command_prints")) { output += "<<out " + e->outputs_[0]->path() + ">>\npart two of " + e->outputs_[0]->path() + "\n"; events.push_back("printed " + e->outputs_[0]->path()); }
+    if (opt.prints_output && !e->use_console() && verif_bool("command_prints")) { output += out_block(e->outputs_[0]->path()); events.push_back("printed " + e->outputs_[0]->path()); }
     if (e->GetBinding("deps") == "msvc") { for (size_t q = 0; q < reads.size(); q++) output += "Note: including file: " + reads[q] + "\n"; }
     if (ord < 16) { g_last[ord].ran = true; g_last[ord].snap = r.snap; g_last[ord].command = e->EvaluateCommand(true); }
     finished_ok.push_back(ord); events.push_back("ok " + e->outputs_[0]->path());
